@@ -107,8 +107,8 @@ func init() {
 	fw.Register(&fw.Check{
 		ID:    "C03",
 		Title: "Mutating commands touch only the lines they are defined to change",
-		Rule: "layouts = the formatting product (indentation per record {4,3,2 spaces, tab}^2 x LF/CRLF/mixed x blank-line runs before/between/after incl. whitespace-only lines x final newline yes/no x headline gap) over 37 shapes " +
-			"(1-3 records, target record first/middle/last/absent, multi-line summaries, open ranges present/absent and followed by other entries, pause entries; quick: every 13th layout, thorough: all) x 42 operations " +
+		Rule: "layouts = the formatting product (indentation per record {4,3,2 spaces, tab}^2 x LF/CRLF/mixed x blank-line runs before/between/after incl. whitespace-only lines x final newline yes/no x headline gap) over " + fmt.Sprint(len(c03Shapes())) + " shapes " +
+			"(1-3 records, target record first/middle/last/absent, multi-line summaries, open ranges present/absent and followed by other entries, pause entries; quick: every 13th layout, thorough: all) x " + fmt.Sprint(len(c03Ops())) + " operations " +
 			"(track 1-/3-line at 5 dates; start --time/-s/multi-line/--resume/now at 3 dates; stop plain, 1-, 3-line and continuation-only summaries; switch; pause with ticks, --no-tags, --extend; create at dates before/between/after/equal with --should and 2-line summary). " +
 			"A case = (layout, operation) where the command succeeds; distinct by hash(file, command line).",
 		Assumptions: []string{
